@@ -222,7 +222,10 @@ def x1(e: Engine, rep: Report):
 # ---------------------------------------------------------------------- X2
 def x2(e: Engine, rep: Report):
     ctx = e.method_ctx(CLIENT, 'mailfrom')
-    g = e.build(ctx, raises=lambda b, n, r: set())
+    # with the helper the command line may be assembled in
+    g = e.build(ctx, raises=lambda b, n, r: set(),
+                inline=e.inline_same_self(deny=['_flush_pipeline', '_xtext',
+                                                '_encode']), max_depth=3)
     fx = e.facts(g)
     where = ctx.func.qname
     kw = rx.module_pattern(e, 'slimta.smtp.server', 'param_keyword_pattern')
@@ -251,10 +254,11 @@ def x2(e: Engine, rep: Report):
     n = 0
     # a parameter is added by `cmd += b' KEY=' + value` or by appending
     # b'KEY=' + value to a list that is joined with blanks
-    blank_join = any(
-        isinstance(x, ast.Call) and isinstance(x.func, ast.Attribute) and
-        x.func.attr == 'join' and isinstance(x.func.value, ast.Constant) and
-        x.func.value.value == b' ' for x in walk_own(ctx.func.node))
+    def blank_join(fn):
+        return any(
+            isinstance(x, ast.Call) and isinstance(x.func, ast.Attribute) and
+            x.func.attr == 'join' and isinstance(x.func.value, ast.Constant)
+            and x.func.value.value == b' ' for x in walk_own(fn))
     sites = []
     for node in g.nodes:
         if node.kind == 'stmt' and isinstance(node.ast, ast.AugAssign) and \
@@ -262,7 +266,8 @@ def x2(e: Engine, rep: Report):
             sites.append((node, node.ast.value, False))
         elif node.kind == 'call' and e.call_name(node) == 'append' and \
                 node.ast.args:
-            sites.append((node, node.ast.args[0], blank_join))
+            sites.append((node, node.ast.args[0],
+                          blank_join(node.frame.ctx.func.node)))
     for node, val, sep_by_join in sites:
         a = ast.Expr(value=val)
         lits = [x for x in ast.walk(val) if isinstance(x, ast.Constant)
@@ -310,7 +315,7 @@ def x2(e: Engine, rep: Report):
                     unknown = ast.unparse(x)
             elif isinstance(x, ast.Name) and x.id not in ('self',):
                 # a local: its definitions
-                for d in walk_own(ctx.func.node):
+                for d in walk_own(node.frame.ctx.func.node):
                     if isinstance(d, ast.Assign) and any(
                             isinstance(t, ast.Name) and t.id == x.id
                             for t in d.targets):
@@ -1336,42 +1341,53 @@ def x13(e: Engine, rep: Report):
                         return
                 ops.append((x, fr))
                 frames.add(id(fr))
-            sh = common.bytes_shape(g, arg, c.frame)
-            # the part between the delimiters: after the first literal
-            x0 = None
-            if len(sh) >= 2 and sh[1][0] == 'opaque':
-                x0 = sh[1][1]
-            # bytes_shape works on the expanded text; follow the original
-            # expression where the join is written out
-            a0, f0 = common.origin(g, arg, c.frame)
-            if isinstance(a0, ast.Name):
-                # cmd = <start>; cmd += <parameters>
-                asg = [a for a in walk_own(f0.ctx.func.node)
-                       if isinstance(a, ast.Assign) and any(
-                           isinstance(t, ast.Name) and t.id == a0.id
-                           for t in a.targets)]
-                if len(asg) == 1:
-                    a0 = asg[0].value
-            els = _bytes_literals_of_join(a0)
-            if els and len(els) >= 2:
-                flow(els[1], f0)
-            elif isinstance(a0, ast.BinOp):
-                parts = []
-
-                def adds(y):
-                    if isinstance(y, ast.BinOp) and isinstance(y.op,
-                                                               ast.Add):
-                        adds(y.left)
-                        adds(y.right)
-                    else:
-                        parts.append(y)
-                adds(a0)
-                if len(parts) >= 2:
-                    flow(parts[1], f0)
-                else:
-                    unknown.append(a0)
-            elif x0 is not None:
-                flow(x0, c.frame)
+            # the parts of the command line, in the original syntax tree
+            # (joins, concatenations, a list joined later, a helper that
+            # assembles the line), and the one behind the opening bracket
+            def parts_of(x, fr, depth=0):
+                if depth > 8:
+                    return [(x, fr)]
+                if isinstance(x, ast.Name):
+                    fn = fr.ctx.func
+                    asg = [a for a in walk_own(fn.node)
+                           if isinstance(a, ast.Assign) and any(
+                               isinstance(t, ast.Name) and t.id == x.id
+                               for t in a.targets)]
+                    if len(asg) == 1 and x.id not in fn.params:
+                        return parts_of(asg[0].value, fr, depth + 1)
+                    x2, f2 = common.origin(g, x, fr)
+                    if x2 is not x:
+                        return parts_of(x2, f2, depth + 1)
+                    return [(x, fr)]
+                if isinstance(x, ast.BinOp) and isinstance(x.op, ast.Add):
+                    return parts_of(x.left, fr, depth + 1) + \
+                        parts_of(x.right, fr, depth + 1)
+                if isinstance(x, (ast.List, ast.Tuple)):
+                    out = []
+                    for el in x.elts:
+                        out += parts_of(el, fr, depth + 1)
+                    return out
+                if isinstance(x, ast.Call) and \
+                        isinstance(x.func, ast.Attribute) and \
+                        x.func.attr == 'join' and len(x.args) == 1 and \
+                        isinstance(x.func.value, ast.Constant):
+                    return parts_of(x.args[0], fr, depth + 1)
+                if isinstance(x, ast.Call):
+                    v2, f2 = common.value_of(g, x, fr)
+                    if v2 is not x:
+                        return parts_of(v2, f2, depth + 1)
+                return [(x, fr)]
+            parts = parts_of(arg, c.frame)
+            target = None
+            for k, (px, pf) in enumerate(parts):
+                if isinstance(px, ast.Constant) and \
+                        isinstance(px.value, bytes) and \
+                        px.value.rstrip().endswith(b'<') and \
+                        k + 1 < len(parts):
+                    target = parts[k + 1]
+                    break
+            if target is not None:
+                flow(target[0], target[1])
             else:
                 unknown.append(arg)
             n += 1
